@@ -104,6 +104,10 @@ def run_history(hist: list[Any]) -> dict[str, Any]:
                 extra_kw["addresses"] = tuple(seq_) if ccfg["addresses"] == "tuple" else seq_
             if "debug" in ccfg:
                 extra_kw["debug"] = bool(ccfg["debug"])
+            if ccfg.get("built"):
+                # where the client object was built: "outside-loop" = synchronous set-up code before the loop runs; "closed-loop" = inside an
+                # earlier asyncio.run() of the process whose loop is closed by now
+                extra_kw["outside_loop"] = True if ccfg["built"] == "outside-loop" else "closed-loop"
             cli = sim.client("dev.example.com", 6053, ccfg.get("password", "pw"), **extra_kw)
             apply_world(sim, cfg, "ok")
             sim.net.dns["dev.example.com"] = ["10.0.0.1"]
@@ -500,7 +504,8 @@ def gen_history(rng: Any) -> list[Any]:
     for _ in range(n):
         r = rng.random()
         if not h and r < 0.3:
-            h.append(["cfg", {"password": rng.choice([None, "", "pw", "other"]), "addresses": rng.choice([None, None, "tuple", "list"])}])
+            h.append(["cfg", {"password": rng.choice([None, "", "pw", "other"]), "addresses": rng.choice([None, None, "tuple", "list"]),
+                              "built": rng.choice([None, None, "outside-loop", "closed-loop"])}])
         elif r < 0.22:
             h.append(["start", rng.choice(WORLDS) if rng.random() < 0.5 else "ok", rng.choice(["done", "done", "none", "ms"])])
         elif r < 0.36:
@@ -599,6 +604,14 @@ def shard(ctx: Ctx) -> None:
             if ctx.mine(idx):
                 one(ctx, [["cfg", {"password": "pw", "addresses": form}], ["connect", "ok", "done"], ["api", 3]] + tail +
                     [["connect", "ok", "done"], ["api", 5]] + tail + [["start", "ok", "done"], ["finish", "done"], ["api", 7]], "several-addresses")
+    # a client object built before the loop that runs it (synchronous set-up code) or inside an earlier, finished asyncio.run(): sessions ended by the
+    # device, by the application, by a reset - the next attempt is accepted each time
+    for built in ("outside-loop", "closed-loop"):
+        for tail in ([["disconnect", "done"]], [["dev", "eof"]], [["force"]], [["dev", "discreq"]], [["dev", "rst"]]):
+            idx += 1
+            if ctx.mine(idx):
+                one(ctx, [["cfg", {"password": "pw", "built": built}], ["connect", "ok", "done"], ["api", 3]] + tail +
+                    [["connect", "ok", "done"], ["api", 5]] + tail + [["start", "ok", "done"], ["finish", "done"], ["api", 7]], "client-built-elsewhere")
     # a password-protected device rejecting the login of clients configured with no / an empty / a wrong password, then every API recipe
     for pw in (None, "", "pw", 0):
         for how in (["connect", "badauth", "done"], ["start", "badauth", "done"]):
